@@ -218,7 +218,48 @@ def fresh_keys(st, hint):
             return V.SOpaque("Key", fk(zj), {"str": True})
         return (V.SOpaque("Key", fk(zj), {"mouse": True}), V.mk_int(fb(zj)), V.mk_int(fc(zj)), V.mk_int(fr_(zj)))
 
-    return Q.LRef(Q.SSeq(n, getter, None, None, "keys"))
+    seq = Q.SSeq(n, getter, None, None, "keys")
+    seq.kind_fn = kind
+    has = z3.Bool(f"{nm}$has_resize")
+    wit = z3.Int(f"{nm}$resize_at")
+
+    def contains_model(s, x):
+        """`"window resize" in keys`, exactly: true iff some index of the batch holds the marker (a witness index when
+        true, no index at all when false).  Other members: not modelled (falls back to abstract_contains)."""
+        if not (isinstance(x, str) and x == "window resize"):
+            return NotImplemented
+        j = z3.Int(f"{nm}$j")
+        s.assume(z3.Implies(has, z3.And(0 <= wit, wit < V._z(n), kind(wit) == 0)))
+        s.assume(z3.Implies(z3.Not(has), z3.ForAll([j], z3.Implies(z3.And(0 <= j, j < V._z(n)), kind(j) != 0))))
+        return mk_bool(has)
+
+    def model_get(model, j):
+        """Element j of the batch in a solver model (for counterexample display; no forks)."""
+        ev = lambda e: model.eval(e, model_completion=True)  # noqa: E731
+        k = ev(kind(j)).as_long()
+        if k == 0:
+            return "window resize"
+        if k == 1:
+            return f"<Key:{ev(fk(j))}>"
+        return (f"<Key:{ev(fk(j))}>", ev(fb(j)).as_long(), ev(fc(j)).as_long(), ev(fr_(j)).as_long())
+
+    seq.contains_model = contains_model
+    seq.model_get = model_get
+    return Q.LRef(seq)
+
+
+def holds_resize(keys):
+    """Spec: some event of the batch (at any index, alone or among keys and mouse events) is the resize marker."""
+    seq = keys.seq
+    j = z3.Int("j!resize")
+    return mk_bool(z3.Exists([j], z3.And(0 <= j, j < V._z(seq.length), seq.kind_fn(j) == 0)))
+
+
+def only_resizes(keys):
+    """Spec: the batch holds nothing that is routed to a widget or handler (it is empty or all resize markers)."""
+    seq = keys.seq
+    j = z3.Int("j!route")
+    return mk_bool(z3.ForAll([j], z3.Implies(z3.And(0 <= j, j < V._z(seq.length)), seq.kind_fn(j) == 0)))
 
 
 PROTOCOLS["Key"].isinstance = lambda ip, st, obj, cls: issubclass(str, cls)
@@ -324,7 +365,10 @@ def routing_invariant(v):
 
 
 process_input.log_event = "process_input"
-process_input.ensures_callee = staticmethod(lambda old, s, a, result: ())
+# at a call site (MainLoop._update): process_input may assign self.screen_size (it asks the screen when the size is
+# not known) - frame it, and hand the caller the postcondition proved above
+process_input.modifies = ("screen_size",)
+process_input.ensures_callee = staticmethod(lambda old, s, a, result: (("size-known-afterwards", neg(is_none(s.screen_size))),))
 process_input.on_raise_callee = staticmethod(lambda old, s, a, exc: ())
 
 
@@ -343,6 +387,17 @@ class ml_update:
 
     def ensures(old, s, a, result):
         yield from _update_claims(old, s, a)
+        st = cur()
+        batch = a.keys if is_none(old._input_filter) else st.ghost["filtered_keys"]
+        procs = [e for e in s.trace if e[0] == "process_input"]
+        # "each input event is passed ... to the topmost widget": the batch may be withheld from process_input only
+        # when it holds nothing to route (empty, or nothing but resize markers)
+        if not procs:
+            yield "events-withheld-from-process_input-only-when-nothing-to-route", only_resizes(batch)
+        # "redrawn from the resulting widget state before the loop next waits": a resize ANYWHERE in the batch
+        # (alone, or among keys / mouse events) makes the loop forget the cached size, so that the idle redraw
+        # (draw_screen, below) asks the screen for its current size
+        yield "resize-anywhere-in-the-batch-forgets-the-cached-size", implies(holds_resize(batch), is_none(s.screen_size))
 
     def on_raise(old, s, a, exc):
         yield from _update_claims(old, s, a)
@@ -367,7 +422,54 @@ PROTOCOLS["RawCodes"] = type("RC", (Protocol,), {"kind": "RawCodes", "methods": 
 
 # ---- redraw on idle, and the screen start/stop protocol
 
-@contract(ML + "MainLoop.entering_idle", property="C12", replayable=False, inline=(ML + "MainLoop.draw_screen",))
+def _redraw_claims(old, s):
+    """One redraw (MainLoop.draw_screen): the topmost widget is rendered in focus and that canvas is painted, at the
+    size the loop has cached - or, when the cached size was forgotten (start of the session, or a batch with a
+    resize: MainLoop._update above), at the size the screen reports NOW, asked for before rendering."""
+    st = cur()
+    calls = [e for e in st.trace if e[0] == "call"]
+    draws = [e for e in calls if e[1].kind == "Screen" and e[2] == "draw_screen"]
+    renders = [e for e in calls if e[1].kind == "Widget" and e[2] == "render"]
+    asks = [e for e in calls if e[1].kind == "Screen" and e[2] == "get_cols_rows"]
+    yield "redraws-from-the-current-widget-state", len(draws) == 1 and len(renders) == 1
+    if not (draws and renders):
+        return
+    yield "topmost-widget-rendered-in-focus-at-the-screen-size", both(renders[0][1] is old._topmost_widget, eq(renders[0][3]["focus"], True), eq(renders[0][3]["size"], draws[0][3]["size"]), draws[0][3]["canvas"] is renders[0][4])
+    yield "rendered-then-painted", calls.index(renders[0]) < calls.index(draws[0])
+    before = [e for e in asks if calls.index(e) < calls.index(renders[0])]
+    painted = draws[0][3]["size"]
+    if is_none(old.screen_size):
+        yield "forgotten-size-asked-from-the-screen-before-rendering", len(before) >= 1
+    if before:
+        yield "painted-at-the-size-the-screen-reports-now", eq(painted, before[-1][4])
+    else:
+        # no fresh answer: only the cached size can be right (no resize was seen since it was cached)
+        yield "painted-at-the-cached-size", (not is_none(old.screen_size)) and eq(painted, val(old.screen_size))
+    # (asking again although a size is cached, or not caching the answer, is allowed: the statement does not care)
+    if not is_none(s.screen_size):
+        yield "cache-holds-nothing-but-the-size-painted", eq(val(s.screen_size), painted)
+
+
+@contract(ML + "MainLoop.draw_screen", property="C12", replayable=False)
+class draw_screen:
+    self_shape = MAINLOOP
+    raises = (BaseException,)
+
+    def ensures(old, s, a, result):
+        yield from _redraw_claims(old, s)
+
+    # at a call site (entering_idle): one logged redraw; it may cache the size it asked for
+    log_event = "draw_screen"
+    modifies = ("screen_size",)
+
+    def ensures_callee(old, s, a, result):
+        return ()
+
+    def on_raise_callee(old, s, a, exc):
+        return ()
+
+
+@contract(ML + "MainLoop.entering_idle", property="C12", replayable=False)
 class entering_idle:
     self_shape = MAINLOOP
     raises = (BaseException,)
@@ -377,12 +479,12 @@ class entering_idle:
         started = PROTOCOLS["Screen"].uf_value(st, ".started", old.screen, [], Bool, 0)
         draws = [e for e in st.trace if e[0] == "call" and e[1].kind == "Screen" and e[2] == "draw_screen"]
         renders = [e for e in st.trace if e[0] == "call" and e[1].kind == "Widget" and e[2] == "render"]
+        # before the loop waits again: exactly one redraw (MainLoop.draw_screen, contract above) on a started screen
+        yield "nothing-painted-except-through-draw_screen", len(draws) == 0 and len(renders) == 0
         if started:
-            yield "redraws-from-the-current-widget-state", len(draws) == 1 and len(renders) == 1
-            if draws and renders:
-                yield "topmost-widget-rendered-in-focus-at-the-screen-size", both(eq(renders[0][3]["focus"], True), eq(renders[0][3]["size"], draws[0][3]["size"]), draws[0][3]["canvas"] is renders[0][4])
+            yield "redraws-from-the-current-widget-state", count_ev(s.trace, "draw_screen") == 1
         else:
-            yield "no-drawing-on-a-stopped-screen", len(draws) == 0 and len(renders) == 0
+            yield "no-drawing-on-a-stopped-screen", count_ev(s.trace, "draw_screen") == 0
 
 
 PROTOCOLS["Widget"].methods["render"].raises_any = False
@@ -415,6 +517,7 @@ def _bs_real(ip, st, f, args, kwargs):
 class bs_start:
     self_shape = BASESCREEN
     call_real = staticmethod(_bs_real)
+    no_xcheck = "call_real models StoppingContext(self) (the return value, a context manager) as None"
 
     def ensures(old, s, a, result):
         yield "started-afterwards", s._started == True  # noqa: E712
